@@ -85,6 +85,14 @@ for _c in ("route.unexpected-recipient", "route.missing-recipient", "route.power
 		OWNERS[_c] = OWNERS[_c] + ["C05"]
 
 
+# C12: "POWEROFF also forgets the hopping configuration and all queued bursts", "a transceiver is
+# running iff ...": what a transceiver is after a power history only shows in whom bursts
+# reach, so C12 co-owns the routing clauses too.
+for _c in ("route.unexpected-recipient", "route.missing-recipient"):
+	if "C12" not in OWNERS[_c]:
+		OWNERS[_c] = OWNERS[_c] + ["C12"]
+
+
 class Trx:
 	def __init__(self, i, d):
 		self.i = i
@@ -933,7 +941,7 @@ class Monitor:
 					self.viols.append({"clause": "queue.not-emitted",
 						"detail": {"fn": fn, "sender": e.S.label(), "recipient": R.label(), "tn": e.b.tn,
 							"expected_recipients": len(same)},
-						"owners": ["C03", "C02", "C05"]})
+						"owners": ["C03", "C02", "C05", "C12"]})
 		if isinstance(drop_k, int):
 			maybe = [e for e in exps if e.suppress == "maybe" and not e.optional]
 			sure = sum(1 for e in maybe if (e.matched is not None and e.matched.get("nope")) or
